@@ -393,6 +393,13 @@ def run(ck, F):
                  f'{f["id"]}: when the growth fails, {changed} has already been changed: the sequence reports a length its storage does not have',
                  loc=f['loc'], fn=f['id'])
 
+    # ---------------------------------------------------------------- iteration agrees with positional access
+    import c15 as _c15
+    R_it = ck.rule('C14.iterator-steps', 'Sequence<T>::Iterator dereferences to get(index) of its sequence, ++ and -- move the index by exactly one '
+                   '(whatever integer type the step is computed in), and == / != compare sequence and index: within bounds, iteration in '
+                   'either direction visits the elements positional access yields', floor=30)
+    _c15.iterator_rule(ck, F, Sym(F, opaque=contracts.default_opaque(F), max_depth=24), R_it)
+
     # ---------------------------------------------------------------- no unchecked downcast
     R4d = ck.rule('C14.downcasts-confirmed', 'a static downcast (base pointer or reference to derived) in the library is one of the sites '
                   'confirmed by reading: anywhere else the dynamic type of the object is not established, and a member read through the '
